@@ -427,7 +427,7 @@ func c18How(got, want map[string]lsEntry) string {
 
 func runC18(c *fw.Ctx) {
 	r := c.Rand(uint64(1800 + c.Shard))
-	n := c.Pick(48, 4000) / c.NShards
+	n := c.Pick(48, 800) / c.NShards
 	if n < 2 {
 		n = 2
 	}
